@@ -345,6 +345,9 @@ func (e *Engine) step(st *State) {
 		panic("pc past block end in " + f.fn.String())
 	}
 	in := f.block.Instrs[f.pc]
+	if st.preemptOn && len(st.gos) > 0 && isSyncPoint(in) && e.maybePreempt(st, f) {
+		return
+	}
 	f.pc++
 	switch x := in.(type) {
 	case *ssa.DebugRef:
@@ -541,6 +544,10 @@ func (e *Engine) doReturn(st *State, res Value) {
 		return
 	}
 	if len(st.frames) == 0 {
+		if st.curGo != 0 {
+			e.goExit(st)
+			return
+		}
 		st.status = Finished
 		return
 	}
@@ -614,6 +621,13 @@ func (e *Engine) continuePanic(st *State) {
 			return
 		}
 		if len(st.frames) == 0 {
+			if st.curGo != 0 {
+				// an uncaught panic in any goroutine terminates the process
+				e.reportViolation(st, "panic", "in spawned goroutine: "+pi.Msg, pi.Stack)
+				st.status = Violated
+				st.note = "panic in goroutine: " + pi.Msg
+				return
+			}
 			st.status = Panicked
 			st.panicv = pi
 			st.note = pi.Msg
@@ -726,7 +740,7 @@ func (e *Engine) unop(st *State, f *Frame, x *ssa.UnOp) {
 		f.regs[x] = BVNot(v.(*Term))
 	case token.ARROW:
 		v, ok, done := e.chanRecv(st, e.get(st, f, x.X).(ChanV), x.X.Type().Underlying().(*types.Chan).Elem())
-		if done {
+		if done && st.status == Running {
 			if x.CommaOk {
 				f.regs[x] = TupleV{v, ConstBool(ok)}
 			} else {
@@ -1171,4 +1185,56 @@ func dumpQuery(path string, conj []*Term) {
 	}
 	sb.WriteString("(check-sat)\n")
 	os.WriteFile(path, []byte(sb.String()), 0644)
+}
+
+// ---- optional pre-emption at synchronisation points (zzverif.Preemptive) ----
+// With pre-emption on, before a goroutine executes a channel operation (send, receive, select, len/cap of a channel) or
+// a mutex call, the executor ALSO explores the schedule in which another runnable goroutine runs first. Each dynamic
+// instruction pre-empts at most once, so the exploration is finite: all interleavings at the granularity of these points.
+func isSyncPoint(in ssa.Instruction) bool {
+	switch x := in.(type) {
+	case *ssa.Send, *ssa.Select:
+		return true
+	case *ssa.UnOp:
+		return x.Op == token.ARROW
+	case *ssa.Call:
+		if b, ok := x.Call.Value.(*ssa.Builtin); ok && (b.Name() == "len" || b.Name() == "cap") && len(x.Call.Args) == 1 {
+			_, isChan := x.Call.Args[0].Type().Underlying().(*types.Chan)
+			return isChan
+		}
+		if fn := x.Call.StaticCallee(); fn != nil {
+			n := fn.String()
+			return strings.HasPrefix(n, "(*sync.Mutex).") || strings.HasPrefix(n, "(*sync.RWMutex).")
+		}
+	}
+	return false
+}
+
+// maybePreempt forks the schedule "someone else first". Returns true if the CURRENT state was switched away (never: the
+// current state always continues; the alternative is pushed as a new state).
+func (e *Engine) maybePreempt(st *State, f *Frame) bool {
+	key := f.block.Index*100000 + f.pc
+	if f.noPreempt == key+1 {
+		return false
+	}
+	// is there another goroutine that could run?
+	can := false
+	for _, g := range st.gos {
+		if !g.settling && (g.blockedAt == -1 || g.blockedAt < st.syncVer) {
+			can = true
+		}
+	}
+	f.noPreempt = key + 1
+	if !can {
+		return false
+	}
+	o := st.clone()
+	me := &Gor{id: o.curGo, frames: o.frames, blockedAt: -1}
+	o.gos = append(o.gos, me)
+	// schedule someone else (not me: me was appended last, FIFO picks an earlier runnable one)
+	if e.schedule(o) && o.curGo != me.id {
+		e.pushWork(o)
+		e.stats.forks++
+	}
+	return false
 }
